@@ -307,11 +307,19 @@ func cfgn(cfg []int64, i int) int {
 //
 //	cfg = [peers, reqPerPeer, notifyPerPeer, responses, timeouts, timerProducers, perTimerProducer,
 //	       posters, perPoster, publishers, localPerPublisher, globalPerPublisher, conns, msgsPerConn,
-//	       mode, ovLocal, ovGlobal, ovPost, ovTimer, ovSessMsg, ovRequest, edgeRounds]
+//	       mode, ovLocal, ovGlobal, ovPost, ovTimer, ovSessMsg, ovRequest, edgeRounds, siblings]
 //
 // mode 1: before anything else the service actor is crashed once (a message whose handler
 // panics) and restarted by its supervisor.  mode 2: the same props is spawned a second time;
 // both actors are served by the one run service of the props and both receive requests.
+//
+// siblings: that many more actors are spawned from the same props (mode 2 = at least one).  All
+// of them share the dispatcher (queue of 9 mailbox batches) and the run service; in the overflow
+// phase every actor gets a request while the loop is held, so with 11 actors or more posters
+// must block in scheDisp.Schedule.  (With 10 actors or more the harness never lets a message
+// arrive at a mailbox while the dispatcher queue can be full and that mailbox may just be
+// ending a batch: there the UNCHANGED code re-schedules from the loop goroutine and can lock
+// itself up - a liveness matter, not this property.)
 //
 // edgeRounds: that many rounds of "boundary" work run concurrently with everything else: timers
 // with delay 0 / negative / 1ns / 1ms, one-shot and repeating, armed from a foreign goroutine;
@@ -336,6 +344,10 @@ func runStress(seed int64, cfg []int64) any {
 	ovLocal, ovGlobal, ovPost := cfgn(cfg, 15), cfgn(cfg, 16), cfgn(cfg, 17)
 	ovTimer, ovSess, ovReq := cfgn(cfg, 18), cfgn(cfg, 19), cfgn(cfg, 20)
 	edgeRounds := cfgn(cfg, 21)
+	siblings := cfgn(cfg, 22)
+	if mode == 2 && siblings == 0 {
+		siblings = 1
+	}
 	if ovLocal > 0 {
 		ovGlobal = 0 // one queue: a deterministic drop count needs it to hold one kind only
 	}
@@ -437,15 +449,22 @@ func runStress(seed int64, cfg []int64) any {
 		if svc = ping(svcPID); svc == nil {
 			return stressTerm(false, p)
 		}
-	case 2:
-		pid2, err := s.Root.SpawnNamed(sprops, tag+"-svc2")
+	}
+	for i := 0; i < siblings; i++ {
+		pid, err := s.Root.SpawnNamed(sprops, fmt.Sprintf("%s-sib%d", tag, i))
 		if err != nil {
 			panic(err)
 		}
-		svcTargets = append(svcTargets, pid2)
-		if ping(pid2) == nil {
+		svcTargets = append(svcTargets, pid)
+		if ping(pid) == nil {
 			return stressTerm(false, p)
 		}
+	}
+	// targets of traffic that may arrive at any time: at most 9 mailboxes, so the dispatcher
+	// queue always has room for their batches
+	freeTargets := svcTargets
+	if len(freeTargets) > 9 {
+		freeTargets = freeTargets[:9]
 	}
 
 	// reference goroutine: the one that runs HandleOnce of the service's selector
@@ -564,7 +583,12 @@ func runStress(seed int64, cfg []int64) any {
 			})
 		}
 		burst(ovReq, 1, func(i int) {
-			target := svcTargets[i%len(svcTargets)]
+			// the last len(svcTargets) requests go one to each actor, the others before them to
+			// the first nine: the sender (one goroutine) blocks in Schedule at the tenth batch
+			target := freeTargets[i%len(freeTargets)]
+			if rest := ovReq - i; rest <= len(svcTargets) {
+				target = svcTargets[len(svcTargets)-rest]
+			}
 			echo.Post(func() { echo.Request(target, &messages.TestHello{I: 6}, func(error, interface{}) {}) })
 			p.prod[kRequest].Add(1)
 		})
@@ -665,11 +689,11 @@ func runStress(seed int64, cfg []int64) any {
 		ps := peers[i]
 		producer(reqPer+notPer, func(r *rand.Rand, j int) {
 			if j < reqPer {
-				target := svcTargets[j%len(svcTargets)]
+				target := freeTargets[j%len(freeTargets)]
 				ps.Post(func() { ps.Request(target, &messages.TestHello{I: 4}, func(error, interface{}) {}) })
 				p.prod[kRequest].Add(1)
 			} else {
-				target := svcTargets[j%len(svcTargets)]
+				target := freeTargets[j%len(freeTargets)]
 				ps.Post(func() { ps.Notify(target, &messages.TestHello{I: 5}) })
 				p.prod[kNotify].Add(1)
 			}
